@@ -19,6 +19,25 @@ class TranslateError(Exception):
     pass
 
 
+PREV = None      # tables.json of the last successful run (for sections that stop parsing)
+STALE = {}       # section -> error message
+
+
+def soft(section, keys, t, fn):
+    """run a parser of an OPTIONAL section: when its source construct is no longer recognised, keep the values of the last
+    successful run (so that everything still builds and runs) and record the section as stale; bin/check turns a stale
+    section into a broken obligation of exactly the properties whose models depend on it"""
+    try:
+        fn()
+    except TranslateError as e:
+        if PREV is not None and all(k in PREV for k in keys):
+            for k in keys:
+                t[k] = PREV[k]
+            STALE[section] = str(e)
+        else:
+            raise
+
+
 def die(msg):
     raise TranslateError(msg)
 
@@ -224,8 +243,12 @@ def parse_map_str_vecstr(body, what):
 def parse_consts(repo):
     src = strip_comments(open(os.path.join(repo, 'src/consts.rs'), encoding='utf-8').read())
     t = {}
-    for n in ('TOO_BIG_SEQUENCE', 'MAX_PROCESSED_BYTES', 'TOO_SMALL_SEQUENCE', 'UTF8_MAXIMAL_ALLOCATION'):
+    for n in ('TOO_BIG_SEQUENCE', 'MAX_PROCESSED_BYTES', 'TOO_SMALL_SEQUENCE'):
         t[n] = parse_usize_static(src, n)
+
+    def _alloc():
+        t['UTF8_MAXIMAL_ALLOCATION'] = parse_usize_static(src, 'UTF8_MAXIMAL_ALLOCATION')
+    soft('utf8_alloc', ['UTF8_MAXIMAL_ALLOCATION'], t, _alloc)
     # marks
     body = static_body(src, 'ENCODING_MARKS')
     marks = re.findall(r'\(\s*' + STR + r'\s*,\s*b"((?:[^"\\]|\\.)*)"\.as_slice\(\)\s*\)', body)
@@ -251,11 +274,13 @@ def parse_consts(repo):
     e = balanced(body, m.end() - 1, '[', ']')
     t['SECONDARY_KEYWORDS'] = parse_str_list(body[m.end():e - 1])
     # regex literal
-    body = static_body(src, 'RE_POSSIBLE_ENCODING_INDICATION')
-    m = re.search(r'Regex::new\(\s*r#"(.*?)"#\s*,?\s*\)\s*\.unwrap\(\)', body, re.S)
-    if not m:
-        die("RE_POSSIBLE_ENCODING_INDICATION not recognised")
-    t['RE_LITERAL'] = m.group(1)
+    def _regex():
+        body = static_body(src, 'RE_POSSIBLE_ENCODING_INDICATION')
+        m = re.search(r'Regex::new\(\s*r#"(.*?)"#\s*,?\s*\)\s*\.unwrap\(\)', body, re.S)
+        if not m:
+            die("RE_POSSIBLE_ENCODING_INDICATION not recognised")
+        t['RE_LITERAL'] = m.group(1)
+    soft('regex', ['RE_LITERAL'], t, _regex)
     # IANA_SUPPORTED definition
     body = static_body(src, 'IANA_SUPPORTED')
     m = re.search(r'encodings\(\)\s*\.iter\(\)\s*\.filter\(\|&enc\|\s*!\[(.*?)\]\.contains\(&enc\.name\(\)\)\)\s*'
@@ -749,7 +774,9 @@ def emit_coq(t, path):
             for p in parts:
                 p2 = re.sub(r'\.clone\(\)$', '', p)
                 if p2 not in names:
-                    die("cached convert of %s: %r is not a plain argument" % (d['fn'], p))
+                    # not an argument itself (a projection, a cast, a hash ...): recorded as an opaque key component, so that
+                    # the obligation "the key covers every argument" (C11_keys_cover_all_arguments) fails instead of the translator
+                    p2 = '<' + p + '>'
                 ka.append(p2)
             keyargs = ka
         decls.append('(%s, %s, %s, %s, %s, %s)' % (
@@ -778,19 +805,31 @@ def main():
         print(__doc__)
         sys.exit(2)
     repo, outv, outj = sys.argv[1:]
+    global PREV
+    try:
+        PREV = json.load(open(outj))
+        if PREV.get('STALE'):
+            PREV = None if not os.path.exists(outj + '.good') else json.load(open(outj + '.good'))
+    except (OSError, ValueError):
+        PREV = None
     try:
         t = parse_consts(repo)
         parse_utils(repo, t)
-        parse_assets(repo, t)
-        parse_md(repo, t)
-        parse_cached(repo, t)
+        soft('assets', ['LANGUAGES', 'ENCODING_TO_LANGUAGE', 'LANGUAGE_ENUM'], t, lambda: parse_assets(repo, t))
+        soft('md', ['MD_DETECTORS', 'MD_PERIODS', 'MD_DEFAULT_THRESHOLD', 'MD_LITERALS', 'MD_FLAGS'], t, lambda: parse_md(repo, t))
+        soft('cached', ['CACHED', 'CACHED_PROC_MACRO_VERSION'], t, lambda: parse_cached(repo, t))
         parse_encoding_crate(repo, t)
         emit_coq(t, outv)
     except TranslateError as e:
         print("TRANSLATOR-ERROR: %s" % e)
         sys.exit(2)
     os.makedirs(os.path.dirname(outj), exist_ok=True)
+    t['STALE'] = STALE
     json.dump(t, open(outj, 'w'), indent=1, sort_keys=True)
+    if not STALE:
+        json.dump(t, open(outj + '.good', 'w'), indent=1, sort_keys=True)
+    for k, v in STALE.items():
+        print("TRANSLATOR-STALE: section %s: %s" % (k, v))
     print("translator: %d encodings, %d labels, %d alias keys, %d similar keys, %d ranges, %d cached decls" % (
         len(t['ENCODINGS']), len(t['LABELS']), len(t['ALIASES']), len(t['SIMILAR']), len(t['UNICODE_RANGES']), len(t['CACHED'])))
 
